@@ -1317,4 +1317,63 @@ theorem acl_remove_never_grants {fabrics fabrics' : List Fabric} {fab idx : Nat}
     (granted_before_acl_remove req h
       ((allow_iff_granted fabrics' req (wf_fabricsAclRemove hwf h) (canonical_fabricsAclRemove hc h) hop).mp ha))
 
+/-! ## removing all entries of a fabric revokes every CASE access on it -/
+
+theorem fabricsUpdate_const_unique (c : Fabric) (i : Nat) (hc : c.fabIdx = i) :
+    ∀ (fabrics : List Fabric), (fabrics.map (·.fabIdx)).Nodup →
+      ∀ f ∈ fabricsUpdate fabrics i (fun _ => c), f.fabIdx = i → f = c := by
+  intro fabrics
+  induction fabrics with
+  | nil => intro _ f hf; cases hf
+  | cons x xs ih =>
+    intro hnd f hf hfi
+    simp only [List.map_cons, List.nodup_cons] at hnd
+    unfold fabricsUpdate at hf
+    by_cases hx : x.fabIdx = i
+    · have : (x.fabIdx == i) = true := by simp [hx]
+      simp only [this, if_true, List.mem_cons] at hf
+      rcases hf with rfl | hf
+      · rfl
+      · exfalso; apply hnd.1; rw [hx, ← hfi]; exact List.mem_map_of_mem hf
+    · have : (x.fabIdx == i) = false := by simp [hx]
+      simp only [this, Bool.false_eq_true, if_false, List.mem_cons] at hf
+      rcases hf with rfl | hf
+      · exact absurd hfi hx
+      · exact ih hnd.2 f hf hfi
+
+/-- **`acl_remove_all` revokes every CASE access of that fabric (model)**: for every well-formed
+configuration, after all entries of fabric `fab` were removed no read / write request of a CASE
+accessor on that fabric is allowed, whatever the other fabrics hold. -/
+theorem acl_remove_all_denies_case {fabrics fabrics' : List Fabric} {fab : Nat}
+    (req : AccessReq) (hwf : WF fabrics) (hc : CanonicalPrivs fabrics) (hop : ReadOrWrite req)
+    (h : fabricsAclRemoveAll fabrics fab = some fabrics')
+    (hfab : req.accessor.fabIdx = fab) (hcase : req.accessor.authMode = some AuthMode.case) :
+    allow fabrics' req = false := by
+  have hwf' := wf_fabricsAclRemoveAll hwf h
+  have hc' : CanonicalPrivs fabrics' := by
+    refine canonical_fabricsMutate hc ?_ h
+    intro f f' _ hr e' he'
+    injection hr with hr; subst hr
+    simp [Fabric.aclRemoveAll] at he'
+  cases hal : allow fabrics' req with
+  | false => rfl
+  | true =>
+    exfalso
+    have hg := (allow_iff_granted fabrics' req hwf' hc' hop).mp hal
+    unfold fabricsAclRemoveAll fabricsMutate at h
+    cases hget : fabricsGet fabrics fab with
+    | none => simp [hget] at h
+    | some f0 =>
+      simp only [hget] at h
+      injection h with h; subst h
+      obtain ⟨hf0, hi0⟩ := fabricsGet_some_mem hget
+      rcases hg with hp | ⟨f, hf, hi, _, hgr⟩
+      · rw [hcase] at hp; cases hp
+      · have : f = f0.aclRemoveAll :=
+          fabricsUpdate_const_unique f0.aclRemoveAll fab hi0 fabrics hwf.distinct f hf (hi.trans hfab)
+        subst this
+        rcases hgr with ⟨e, he, _⟩ | hax
+        · simp [Fabric.aclRemoveAll] at he
+        · have := hax.2.1; rw [hcase] at this; cases this
+
 end C05
